@@ -57,13 +57,16 @@ func field(s string) string {
 
 // marker handlers: every registered handler knows its pattern and reports to a recorder
 type recorder struct {
-	cons  []int
-	k     int
-	calls []call
+	cons     []int
+	k        int
+	calls    []call
+	funcs    []marker // handlers registered through the Func variants
+	lastFunc int
 }
 
 type call struct {
 	pat  Pat
+	gen  int
 	toks []xml.Token
 	eof  bool
 }
@@ -71,6 +74,7 @@ type call struct {
 type marker struct {
 	pat Pat
 	rec *recorder
+	gen int // which registration attempt created this handler (histories)
 }
 
 func (m marker) read(t xml.TokenReader) {
@@ -79,7 +83,7 @@ func (m marker) read(t xml.TokenReader) {
 		c = m.rec.cons[m.rec.k]
 	}
 	m.rec.k++
-	cl := call{pat: m.pat}
+	cl := call{pat: m.pat, gen: m.gen}
 	for i := 0; i < c; i++ {
 		tok, err := t.Token()
 		if tok != nil {
@@ -110,6 +114,19 @@ func (m marker) HandlePresence(p stanza.Presence, t xmlstream.TokenReadEncoder) 
 	return nil
 }
 
+func optionOf(m marker) mux.Option {
+	p := m.pat
+	switch p.Kind {
+	case "t":
+		return mux.Handle(p.Name, m)
+	case "i":
+		return mux.IQ(stanza.IQType(p.Typ), p.Name, m)
+	case "m":
+		return mux.Message(stanza.MessageType(p.Typ), p.Name, m)
+	}
+	return mux.Presence(stanza.PresenceType(p.Typ), p.Name, m)
+}
+
 func option(p Pat, rec *recorder, nilHandler bool) mux.Option {
 	m := marker{pat: p, rec: rec}
 	switch p.Kind {
@@ -133,6 +150,73 @@ func option(p Pat, rec *recorder, nilHandler bool) mux.Option {
 		return mux.Presence(stanza.PresenceType(p.Typ), p.Name, nil)
 	}
 	return mux.Presence(stanza.PresenceType(p.Typ), p.Name, m)
+}
+
+// funcOption registers the marker through the Func variant of the option.
+func funcOption(p Pat, rec *recorder, gen int) mux.Option {
+	m := marker{pat: p, rec: rec, gen: gen}
+	rec.funcs = append(rec.funcs, m)
+	idx := len(rec.funcs) - 1
+	switch p.Kind {
+	case "t":
+		return mux.HandleFunc(p.Name, func(t xmlstream.TokenReadEncoder, start *xml.StartElement) error {
+			rec.lastFunc = idx
+			return m.HandleXMPP(t, start)
+		})
+	case "i":
+		return mux.IQFunc(stanza.IQType(p.Typ), p.Name, func(iq stanza.IQ, t xmlstream.TokenReadEncoder, start *xml.StartElement) error {
+			rec.lastFunc = idx
+			return m.HandleIQ(iq, t, start)
+		})
+	case "m":
+		return mux.MessageFunc(stanza.MessageType(p.Typ), p.Name, func(msg stanza.Message, t xmlstream.TokenReadEncoder) error {
+			rec.lastFunc = idx
+			return m.HandleMessage(msg, t)
+		})
+	}
+	return mux.PresenceFunc(stanza.PresenceType(p.Typ), p.Name, func(pr stanza.Presence, t xmlstream.TokenReadEncoder) error {
+		rec.lastFunc = idx
+		return m.HandlePresence(pr, t)
+	})
+}
+
+// identify finds out which registered handler h is: a marker directly, or a Func-variant
+// handler, which is invoked on an empty reader to see which closure runs.
+func identify(h interface{}, rec *recorder) (marker, bool) {
+	if mk, ok := h.(marker); ok {
+		return mk, true
+	}
+	rec.lastFunc = -1
+	before := len(rec.calls)
+	er := &endReader{}
+	common.Recover(func() {
+		switch f := h.(type) {
+		case mux.IQHandlerFunc:
+			_ = f(stanza.IQ{}, er, &xml.StartElement{})
+		case mux.MessageHandlerFunc:
+			_ = f(stanza.Message{}, er)
+		case mux.PresenceHandlerFunc:
+			_ = f(stanza.Presence{}, er)
+		case xmpp.HandlerFunc:
+			if len(rec.funcs) > 0 {
+				_ = probeTop(f, er, rec)
+				// the stanza routers are HandlerFuncs too and may reach a message / presence
+				// handler of ours: only a top-level marker identifies a top-level handler
+				if rec.lastFunc >= 0 && rec.funcs[rec.lastFunc].pat.Kind != "t" {
+					rec.lastFunc = -1
+				}
+			}
+		}
+	})
+	rec.calls = rec.calls[:before]
+	if rec.lastFunc >= 0 {
+		return rec.funcs[rec.lastFunc], true
+	}
+	return marker{}, false
+}
+
+func probeTop(f xmpp.HandlerFunc, er *endReader, rec *recorder) error {
+	return f(er, &xml.StartElement{Name: xml.Name{Space: "urn:probe", Local: "probe"}})
 }
 
 // nilFuncOption registers a nil func through the Func variants.
@@ -434,16 +518,21 @@ type hop struct {
 	op   byte // 'R', 'L', 'D'
 	pat  Pat  // R: the pattern; L: kind, type and queried name
 	nilH bool
+	fn   bool     // R: register through the Func variant
 	name xml.Name // D
 }
 
 func (h hop) enc() string {
 	switch h.op {
 	case 'R':
-		if h.nilH {
-			return "R!" + h.pat.Enc()
+		pre := "R"
+		if h.fn {
+			pre = "Rf"
 		}
-		return "R" + h.pat.Enc()
+		if h.nilH {
+			pre += "!"
+		}
+		return pre + h.pat.Enc()
 	case 'L':
 		return "L" + h.pat.Enc()
 	}
@@ -481,22 +570,48 @@ func (c *ctx) hist(stanzaNS string, ops []hop, class string) {
 	m := mux.New(stanzaNS)
 	var table []Pat
 	var obs []string
+	orig := map[Pat]int{} // the registration attempt whose handler a pattern must keep
+	show := func(mk marker, step int) string {
+		if g, ok := orig[mk.pat]; ok && g != mk.gen {
+			r.Fail("register-refuse", "table-changed", lines, fmt.Sprintf("step %d: the handler of %s is the one of the refused registration attempt %d, not of the accepted attempt %d", step, mk.pat.Enc(), mk.gen, g))
+			return "h=" + mk.pat.Enc() + "/REPLACED"
+		}
+		return "h=" + mk.pat.Enc()
+	}
+	step := 0
 	classify := func(n xml.Name) string {
 		h, ok := m.Handler(n)
-		if mk, isM := h.(marker); isM {
-			return "h=" + mk.pat.Enc()
+		if mk, isM := identify(h, rec); isM {
+			return show(mk, step)
 		}
 		if ok {
 			return "router"
 		}
 		return "nop"
 	}
+	markerOf := func(h interface{}) string {
+		if mk, ok := identify(h, rec); ok {
+			return show(mk, step)
+		}
+		return "none"
+	}
 	for i, o := range ops {
 		var got string
+		step = i
 		p := common.Recover(func() {
 			switch o.op {
 			case 'R':
-				option(o.pat, rec, o.nilH)(m)
+				switch {
+				case o.fn && o.nilH:
+					nilFuncOption(o.pat)(m)
+				case o.fn:
+					funcOption(o.pat, rec, i)(m)
+				case o.nilH:
+					option(o.pat, rec, true)(m)
+				default:
+					mk := marker{pat: o.pat, rec: rec, gen: i}
+					optionOf(mk)(m)
+				}
 				got = "ok"
 			case 'L':
 				switch o.pat.Kind {
@@ -519,7 +634,7 @@ func (c *ctx) hist(stanzaNS string, ops []hop, class string) {
 				got = ""
 				for _, cl := range rec.calls[before:] {
 					if cl.pat.Kind == "t" {
-						got = "h=" + cl.pat.Enc()
+						got = show(marker{pat: cl.pat, gen: cl.gen}, i)
 					}
 				}
 				if got == "" {
@@ -550,6 +665,7 @@ func (c *ctx) hist(stanzaNS string, ops []hop, class string) {
 			}
 			if !refuse {
 				table = append(table, o.pat)
+				orig[o.pat] = i
 			}
 		case 'L', 'D':
 			kind, typ, n := o.pat.Kind, o.pat.Typ, o.pat.Name
@@ -562,7 +678,7 @@ func (c *ctx) hist(stanzaNS string, ops []hop, class string) {
 			case want == nil && gotPat, want != nil && !gotPat:
 				r.Fail("most-specific", "history/"+kind, lines, fmt.Sprintf("step %d (%s): got %s, want %v from the registrations so far", i, o.enc(), got, want))
 			case want != nil:
-				gp, _ := decPat(strings.TrimPrefix(got, "h="))
+				gp, _ := decPat(strings.TrimSuffix(strings.TrimPrefix(got, "h="), "/REPLACED"))
 				if rank(gp.Name) != rank(want.Name) || gp.Kind != kind || gp.Typ != typ {
 					r.Fail("most-specific", "history/"+kind, lines, fmt.Sprintf("step %d (%s): got %s, the most specific registered match is %s", i, o.enc(), got, want.Enc()))
 				}
@@ -571,13 +687,6 @@ func (c *ctx) hist(stanzaNS string, ops []hop, class string) {
 	}
 	r.Line(line, common.Join(obs, ";"))
 	r.Case(line, len(table) > 0, fmt.Sprintf("%s/hist/%d", class, len(ops)))
-}
-
-func markerOf(h interface{}) string {
-	if mk, ok := h.(marker); ok {
-		return "h=" + mk.pat.Enc()
-	}
-	return "none"
 }
 
 // largeStanza builds a message / presence of roughly n tokens: many children over the name
@@ -910,9 +1019,23 @@ func Run(r *common.Run) error {
 				ops = append(ops, hop{op: 'R', pat: Pat{Kind: kind, Typ: typ, Name: shp[i]}})
 				look()
 			}
+			// refused registrations (duplicate through the plain and the Func option, nil) must
+			// leave the table as it was: look again after each
 			ops = append(ops, hop{op: 'R', pat: Pat{Kind: kind, Typ: typ, Name: shp[perm[0]]}})
 			look()
+			ops = append(ops, hop{op: 'R', pat: Pat{Kind: kind, Typ: typ, Name: shp[perm[len(perm)-1]]}, fn: true})
+			look()
+			ops = append(ops, hop{op: 'R', pat: Pat{Kind: kind, Typ: typ, Name: shp[0]}, nilH: true, fn: len(perm)%2 == 0})
+			look()
 			c.hist(c08.NSClient, ops, "hist-exhaustive")
+			// the same history with every registration through the Func variant
+			fops := append([]hop(nil), ops...)
+			for k := range fops {
+				if fops[k].op == 'R' && !fops[k].nilH {
+					fops[k].fn = !fops[k].fn
+				}
+			}
+			c.hist(c08.NSClient, fops, "hist-exhaustive-func")
 		}
 	}
 	nh := r.Pick(1500, 20000)
@@ -929,7 +1052,7 @@ func Run(r *common.Run) error {
 			nm := xml.Name{Space: spaces[rnd.Intn(3)], Local: localNames[rnd.Intn(3)]}
 			switch rnd.Intn(7) {
 			case 0, 1, 2:
-				ops = append(ops, hop{op: 'R', pat: Pat{Kind: kind, Typ: typ, Name: nm}, nilH: rnd.Chance(1, 12)})
+				ops = append(ops, hop{op: 'R', pat: Pat{Kind: kind, Typ: typ, Name: nm}, nilH: rnd.Chance(1, 12), fn: rnd.Chance(1, 3)})
 			case 3:
 				real := xml.Name{Space: spaces[1+rnd.Intn(2)], Local: localNames[1+rnd.Intn(2)]}
 				if rnd.Chance(1, 6) {
@@ -1107,6 +1230,15 @@ func (c *ctx) replay(lines []string) error {
 				return err
 			}
 			c.lookup(ps, f[2], unfield(f[3]), decName(f[4]), "replay")
+		case "route":
+			if len(f) != 5 {
+				continue
+			}
+			ps, err := decPats(f[4])
+			if err != nil {
+				return err
+			}
+			c.route(ps, unfield(f[2]), decName(f[3]), "replay")
 		case "hist":
 			if len(f) != 4 {
 				continue
@@ -1115,12 +1247,21 @@ func (c *ctx) replay(lines []string) error {
 			if f[3] != "-" {
 				for _, x := range strings.Split(f[3], ",") {
 					switch {
-					case strings.HasPrefix(x, "R!"):
-						p, err := decPat(x[2:])
+					case strings.HasPrefix(x, "R!"), strings.HasPrefix(x, "Rf"):
+						h := hop{op: 'R'}
+						y := x[1:]
+						if strings.HasPrefix(y, "f") {
+							h.fn, y = true, y[1:]
+						}
+						if strings.HasPrefix(y, "!") {
+							h.nilH, y = true, y[1:]
+						}
+						p, err := decPat(y)
 						if err != nil {
 							return err
 						}
-						ops = append(ops, hop{op: 'R', pat: p, nilH: true})
+						h.pat = p
+						ops = append(ops, h)
 					case strings.HasPrefix(x, "R"), strings.HasPrefix(x, "L"):
 						p, err := decPat(x[1:])
 						if err != nil {
